@@ -560,8 +560,10 @@ def fault_event_histories(tier, seed):
     mask and events of every tracked storage at the end; fault-free first, then with the fault armed at every position
     of the destroying operation the scenario is about"""
     rng = random.Random(seed * 7907 + 12)
-    kinds = ["remove", "insert_over", "insert_vacant", "insert_dead", "delete", "delete_many", "delete_many_failing",
-             "delete_all", "maintain"]
+    # removals and deletions only: a destructor that panics *inside an insertion* (the filler of a default-filled slot,
+    # a value swapped out) is outside what C12 speaks about - there the unchanged code reports an insertion that the
+    # panic then undoes
+    kinds = ["remove", "delete", "delete_many", "delete_many_failing", "delete_all", "maintain"]
     bases = []
     for target in range(6, 16):
         ks = kinds if tier != "quick" else rng.sample(kinds, 4)
